@@ -61,7 +61,7 @@ func family(i int) int {
 }
 
 func run(c *wk.Ctx) {
-	n := c.Pick(4800, 64000)
+	n := c.Pick(4800, 48000)
 	for i := 0; i < n; i++ {
 		if !c.Mine(i) {
 			continue
@@ -84,6 +84,9 @@ func run(c *wk.Ctx) {
 func hx(b []byte) string {
 	if b == nil {
 		return "<nil>"
+	}
+	if len(b) == 0 {
+		return `""`
 	}
 	if len(b) > 96 {
 		return fmt.Sprintf("%s…(%d bytes)", hex.EncodeToString(b[:96]), len(b))
@@ -575,7 +578,9 @@ func tableCase(c *wk.Ctx, i int, r *rand.Rand) {
 	wst := &fstats{}
 	var wpol filter.Filter
 	wname := ""
-	mask := byte(1 + r.Intn(255))
+	// masks stay below 32: a filter read through the wrong encoding then still carries a probe
+	// count <= 31 (a count above 30 means "always match", which would hide a policy mix-up)
+	mask := byte(1 + r.Intn(31))
 	switch {
 	case wkind == 0:
 		wname = "none"
@@ -729,9 +734,9 @@ func tableCase(c *wk.Ctx, i int, r *rand.Rand) {
 		st1, st2, st3, st4 := &fstats{}, &fstats{}, &fstats{}, &fstats{}
 		cfgs = append(cfgs,
 			mk("same-policy", counting{filter.NewBloomFilter(bits), st1}, nil, true, st1),
-			mk("bloom-other-bits", counting{filter.NewBloomFilter(bitsN), st2}, []filter.Filter{masked{filter.NewBloomFilter(3), nameB, 0x33}}, true, st2),
-			mk("via-altfilters", masked{filter.NewBloomFilter(bitsN), nameB, 0x33}, []filter.Filter{masked{filter.NewBloomFilter(7), nameC, 0x77}, counting{filter.NewBloomFilter(bitsN), st3}}, true, st3),
-			mk("no-matching-policy", counting{masked{filter.NewBloomFilter(bitsN), nameB, 0x33}, st4}, []filter.Filter{counting{masked{filter.NewBloomFilter(bits), nameC, mask}, st4}}, false, st4),
+			mk("bloom-other-bits", counting{filter.NewBloomFilter(bitsN), st2}, []filter.Filter{masked{filter.NewBloomFilter(3), nameB, 0x13}}, true, st2),
+			mk("via-altfilters", masked{filter.NewBloomFilter(bitsN), nameB, 0x13}, []filter.Filter{masked{filter.NewBloomFilter(7), nameC, 0x17}, counting{filter.NewBloomFilter(bitsN), st3}}, true, st3),
+			mk("no-matching-policy", counting{masked{filter.NewBloomFilter(bitsN), nameB, 0x13}, st4}, []filter.Filter{counting{masked{filter.NewBloomFilter(bits), nameC, mask}, st4}}, false, st4),
 		)
 	default: // own name and encoding
 		st1, st2, st3, st4 := &fstats{}, &fstats{}, &fstats{}, &fstats{}
@@ -1044,7 +1049,7 @@ func dbCase(c *wk.Ctx, i int, r0 *rand.Rand) {
 				{"bloom16+alt", b16, []filter.Filter{b1, b10}},
 			}
 		}
-		own := counting{masked{filter.NewBloomFilter(16), "verif.c16.own", 0x5a}, st}
+		own := counting{masked{filter.NewBloomFilter(16), "verif.c16.own", 0x03}, st} // mask < 32, see tableCase
 		return []setting{
 			{"nil", nil, nil},
 			{"bloom1", b1, nil},
